@@ -568,3 +568,317 @@ Definition ex_st (c : client) : st :=
   {| script := []; trace := []; anyq := []; hostq := []; fetchq := []; entryq := []; cl := c;
      env := {| gz_compress := fun b => b; sn_compress := fun b => b; gz_decompress := fun b => Some b;
               debug_build := true |} |}.
+
+Example C19_no_topics_ex :
+  let s := ex_st (client_new [tag "h:9092"]) in
+  consumer_create (inl [tag "h:9092"]) [CWithGroup (tag "g"); CWithMaxBytes 5; CWithFallback FbEarliest] s
+  = (Err ENoTopicsAssigned, s).
+Proof. vm_compute. reflexivity. Qed.
+
+(* ================================================================================== *)
+(* 8. seek / consume_message / last_consumed_message                                  *)
+(* ================================================================================== *)
+
+(* (topic, p) is fetched by k: the topic has a reference and the key is in k_fetch *)
+Definition assigned (k : consumer) (topic : bytes) (p : Z) : Prop :=
+  exists r, topic_ref (k_assign k) topic = Some r /\ tk_get (r, p) (k_fetch k) <> None.
+
+(* an Err result carries no consumer: the caller's consumer - hence every
+   last_consumed_message - is what it was *)
+Theorem C19_foreign_seek : forall k topic p off,
+  ~ assigned k topic p ->
+  consumer_seek k topic p off = Err (EKafka KC_UnknownTopicOrPartition)
+  \/ consumer_seek k topic p off = Err (ETopicPartition topic p KC_UnknownTopicOrPartition).
+Proof.
+  intros k topic p off H. unfold consumer_seek.
+  destruct (topic_ref (k_assign k) topic) as [r|] eqn:Er; [|left; reflexivity].
+  destruct (tk_get (r, p) (k_fetch k)) as [[o mb]|] eqn:Eg; [|right; reflexivity].
+  exfalso. apply H. exists r. split; [exact Er|rewrite Eg; discriminate].
+Qed.
+
+Theorem C19_foreign_consume : forall k topic p off,
+  ~ assigned k topic p ->
+  consume_message k topic p off = Err (EKafka KC_UnknownTopicOrPartition).
+Proof.
+  intros k topic p off H. unfold consume_message.
+  destruct (topic_ref (k_assign k) topic) as [r|] eqn:Er; [|reflexivity].
+  destruct (tk_get (r, p) (k_fetch k)) as [v|] eqn:Eg; [|reflexivity].
+  exfalso. apply H. exists r. split; [exact Er|rewrite Eg; discriminate].
+Qed.
+
+(* for an assigned pair seek changes exactly that key's offset *)
+Theorem C19_seek_assigned : forall k topic p off k',
+  consumer_seek k topic p off = Ok k' ->
+  exists r old maxb,
+    topic_ref (k_assign k) topic = Some r
+    /\ tk_get (r, p) (k_fetch k) = Some (old, maxb)
+    /\ tk_get (r, p) (k_fetch k') = Some (off, maxb)
+    /\ (forall key, key <> (r, p) -> tk_get key (k_fetch k') = tk_get key (k_fetch k))
+    /\ k_consumed k' = k_consumed k /\ k_assign k' = k_assign k /\ k_retry k' = k_retry k
+    /\ k_group k' = k_group k /\ k_client k' = k_client k.
+Proof.
+  intros k topic p off k' H. unfold consumer_seek in H.
+  destruct (topic_ref (k_assign k) topic) as [r|] eqn:Er; [|discriminate].
+  destruct (tk_get (r, p) (k_fetch k)) as [[o mb]|] eqn:Eg; [|discriminate].
+  inversion H; subst k'. exists r, o, mb. unfold consumer_with. cbn [k_fetch k_consumed k_assign k_retry k_group k_client].
+  split; [reflexivity|]. split; [exact Eg|]. split; [apply tk_get_set_same|].
+  split; [intros key Hk; apply tk_get_set_other; exact Hk|]. repeat split.
+Qed.
+
+Theorem C19_seek_ok_iff : forall k topic p off,
+  (exists k', consumer_seek k topic p off = Ok k') <-> assigned k topic p.
+Proof.
+  intros k topic p off. split.
+  - intros [k' H]. apply C19_seek_assigned in H. destruct H as (r & old & maxb & H1 & H2 & _).
+    exists r. split; [exact H1|rewrite H2; discriminate].
+  - intros (r & H1 & H2). unfold consumer_seek. rewrite H1.
+    destruct (tk_get (r, p) (k_fetch k)) as [[o mb]|]; [eauto|congruence].
+Qed.
+
+(* for an assigned pair consume_message changes at most that key's mark *)
+Theorem C19_consume_assigned : forall k topic p off k',
+  consume_message k topic p off = Ok k' ->
+  exists r,
+    topic_ref (k_assign k) topic = Some r
+    /\ tk_get (r, p) (k_fetch k) <> None
+    /\ (forall key, key <> (r, p) -> tk_get key (k_consumed k') = tk_get key (k_consumed k))
+    /\ k_fetch k' = k_fetch k /\ k_assign k' = k_assign k /\ k_retry k' = k_retry k
+    /\ k_group k' = k_group k /\ k_client k' = k_client k.
+Proof.
+  intros k topic p off k' H. unfold consume_message in H.
+  destruct (topic_ref (k_assign k) topic) as [r|] eqn:Er; [|discriminate].
+  destruct (tk_get (r, p) (k_fetch k)) as [v|] eqn:Eg; [|discriminate].
+  exists r. split; [reflexivity|]. split; [rewrite Eg; discriminate|].
+  destruct (tk_get (r, p) (k_consumed k)) as [[o d]|] eqn:Ec.
+  - destruct (o <? off) eqn:El.
+    + inversion H; subst k'. unfold consumer_with. cbn [k_fetch k_consumed k_assign k_retry k_group k_client].
+      split; [intros key Hk; apply tk_get_set_other; exact Hk|]. repeat split.
+    + inversion H; subst k'. repeat split.
+  - inversion H; subst k'. unfold consumer_with. cbn [k_fetch k_consumed k_assign k_retry k_group k_client].
+    split; [intros key Hk; apply tk_get_set_other; exact Hk|]. repeat split.
+Qed.
+
+Theorem C19_consume_ok_iff : forall k topic p off,
+  (exists k', consume_message k topic p off = Ok k') <-> assigned k topic p.
+Proof.
+  intros k topic p off. split.
+  - intros [k' H]. apply C19_consume_assigned in H. destruct H as (r & H1 & H2 & _). exists r. auto.
+  - intros (r & H1 & H2). unfold consume_message. rewrite H1.
+    destruct (tk_get (r, p) (k_fetch k)) as [v|]; [|congruence].
+    destruct (tk_get (r, p) (k_consumed k)) as [[o d]|]; [destruct (o <? off)|]; eauto.
+Qed.
+
+(* every other (topic, partition) keeps its last consumed message *)
+Theorem C19_consume_others : forall k topic p off k',
+  consume_message k topic p off = Ok k' ->
+  forall t' p', (t', p') <> (topic, p) -> last_consumed_message k' t' p' = last_consumed_message k t' p'.
+Proof.
+  intros k topic p off k' H t' p' Hne. apply C19_consume_assigned in H.
+  destruct H as (r & Hr & _ & Hoth & _ & Ha & _). unfold last_consumed_message. rewrite Ha.
+  destruct (topic_ref (k_assign k) t') as [r'|] eqn:Er'; [|reflexivity].
+  rewrite Hoth; [reflexivity|]. intros E. inversion E. subst r' p'.
+  apply Hne. f_equal. eapply topic_ref_inj; eassumption.
+Qed.
+
+Theorem C19_seek_keeps_marks : forall k topic p off k',
+  consumer_seek k topic p off = Ok k' ->
+  forall t' p', last_consumed_message k' t' p' = last_consumed_message k t' p'.
+Proof.
+  intros k topic p off k' H t' p'. apply C19_seek_assigned in H.
+  destruct H as (r & old & maxb & _ & _ & _ & _ & Hc & Ha & _). unfold last_consumed_message. rewrite Ha, Hc. reflexivity.
+Qed.
+
+Definition ex_consumer : consumer :=
+  {| k_client := client_new [tag "h:9092"]; k_group := tag "g"; k_fallback := FbLatest; k_retry_limit := 0;
+     k_assign := [(tag "a", [0; 1]); (tag "b", [0])];
+     k_fetch := [((0, 0), (10, 4096)); ((0, 1), (20, 4096)); ((1, 0), (30, 4096))];
+     k_retry := [];
+     k_consumed := [((0, 1), (19, false))] |}.
+
+Example C19_seek_consume_ex :
+  consumer_seek ex_consumer (tag "c") 0 5 = Err (EKafka KC_UnknownTopicOrPartition)
+  /\ consumer_seek ex_consumer (tag "b") 1 5 = Err (ETopicPartition (tag "b") 1 KC_UnknownTopicOrPartition)
+  /\ consume_message ex_consumer (tag "b") 1 5 = Err (EKafka KC_UnknownTopicOrPartition)
+  /\ option_map k_fetch (match consumer_seek ex_consumer (tag "a") 1 5 with Ok k => Some k | _ => None end)
+     = Some [((0, 0), (10, 4096)); ((0, 1), (5, 4096)); ((1, 0), (30, 4096))]
+  /\ option_map k_consumed (match consume_message ex_consumer (tag "b") 0 31 with Ok k => Some k | _ => None end)
+     = Some [((0, 1), (19, false)); ((1, 0), (31, true))].
+Proof. vm_compute. repeat split. Qed.
+
+(* ================================================================================== *)
+(* 9. the fetch states hold exactly the subscribed keys                               *)
+(* ================================================================================== *)
+
+Lemma range_parts_keys dbg fb consumed latest earliest maxb t r ps acc res :
+  range_parts dbg fb consumed latest earliest maxb t r ps acc = Ok res ->
+  forall key, tk_get key res <> None -> tk_get key acc <> None \/ (fst key = r /\ In (snd key) ps).
+Proof.
+  intros H [kr kp] Hk. cbn [fst snd].
+  destruct (Z.eq_dec kr r) as [Er|Er]; [destruct (in_dec Z.eq_dec kp ps) as [Hin|Hin]; [right; auto|]|]; left.
+  - rewrite <- (C07_range_parts_others _ _ _ _ _ _ _ _ _ _ _ H); [exact Hk|].
+    intros q Hq E. inversion E. subst. contradiction.
+  - rewrite <- (C07_range_parts_others _ _ _ _ _ _ _ _ _ _ _ H); [exact Hk|].
+    intros q Hq E. inversion E. contradiction.
+Qed.
+
+Lemma range_states_keys dbg fb asg consumed latest earliest maxb : forall subs acc res,
+  range_states dbg fb asg consumed latest earliest maxb subs acc = Ok res ->
+  forall key, tk_get key res <> None ->
+    tk_get key acc <> None
+    \/ exists t ps, In (t, ps) subs /\ topic_ref asg t = Some (fst key) /\ In (snd key) ps.
+Proof.
+  induction subs as [|[t0 ps0] rest IH]; intros acc res H key Hk; cbn [range_states] in H.
+  - inversion H; subst. left. exact Hk.
+  - destruct (topic_ref asg t0) as [r0|] eqn:Hr0; [|discriminate].
+    apply bind_ok in H. destruct H as (acc' & Hp & H).
+    destruct (IH _ _ H key Hk) as [Hacc'|(t & ps & Hin & Hr & Hps)].
+    + destruct (range_parts_keys _ _ _ _ _ _ _ _ _ _ _ Hp key Hacc') as [Hacc|[Hr Hps]]; [left; exact Hacc|].
+      right. exists t0, ps0. split; [left; reflexivity|]. rewrite Hr. auto.
+    + right. exists t, ps. split; [right; exact Hin|auto].
+Qed.
+
+(* a committed-offsets start: the keys of the fetch states are exactly the subscribed
+   (topic reference, partition) pairs *)
+Theorem C19_fetch_states_exact : forall dbg fb asg consumed latest earliest maxb subs res,
+  range_states dbg fb asg consumed latest earliest maxb subs [] = Ok res ->
+  forall r p, tk_get (r, p) res <> None <->
+              exists t ps, In (t, ps) subs /\ topic_ref asg t = Some r /\ In p ps.
+Proof.
+  intros dbg fb asg consumed latest earliest maxb subs res H r p. split.
+  - intros Hk. destruct (range_states_keys _ _ _ _ _ _ _ _ _ _ H (r, p) Hk) as [Hn|Hx]; [|exact Hx].
+    exfalso. apply Hn. reflexivity.
+  - intros (t & ps & Hin & Hr & Hp).
+    destruct (C07_range_states _ _ _ _ _ _ _ _ _ _ H t ps p Hin Hp) as (r' & off & Hr' & _ & Hg).
+    rewrite Hr in Hr'. inversion Hr'. subst r'. rewrite Hg. discriminate.
+Qed.
+
+Lemma fallback_states_keys asg offsets maxb : forall subs acc res,
+  fallback_states asg offsets maxb subs acc = Ok res ->
+  forall key, tk_get key res <> None ->
+    tk_get key acc <> None
+    \/ exists t ps, In (t, ps) subs /\ topic_ref asg t = Some (fst key) /\ In (snd key) ps.
+Proof.
+  induction subs as [|[t0 ps0] rest IH]; intros acc res H key Hk; cbn [fallback_states] in H.
+  - inversion H; subst. left. exact Hk.
+  - destruct (topic_ref asg t0) as [r0|] eqn:Hr0; [|discriminate].
+    destruct (assoc_bytes t0 offsets) as [offs|] eqn:Ho; [|discriminate].
+    destruct (IH _ _ H key Hk) as [Hacc'|(t & ps & Hin & Hr & Hps)].
+    + destruct (fold_tk_set_spec r0 (fun p => (match assoc_z p offs with Some o => o | None => -1 end, maxb)) ps0 acc)
+        as [_ Hp2].
+      destruct key as [kr kp]. cbn [fst snd].
+      destruct (Z.eq_dec kr r0) as [Er|Er]; [destruct (in_dec Z.eq_dec kp ps0) as [Hin|Hin]|].
+      * right. exists t0, ps0. split; [left; reflexivity|]. subst kr. auto.
+      * left. rewrite <- Hp2; [exact Hacc'|]. intros q Hq E. inversion E. subst. contradiction.
+      * left. rewrite <- Hp2; [exact Hacc'|]. intros q Hq E. inversion E. contradiction.
+    + right. exists t, ps. split; [right; exact Hin|auto].
+Qed.
+
+Theorem C19_fallback_states_exact : forall asg offsets maxb subs res,
+  fallback_states asg offsets maxb subs [] = Ok res ->
+  forall r p, tk_get (r, p) res <> None <->
+              exists t ps, In (t, ps) subs /\ topic_ref asg t = Some r /\ In p ps.
+Proof.
+  intros asg offsets maxb subs res H r p. split.
+  - intros Hk. destruct (fallback_states_keys _ _ _ _ _ _ H (r, p) Hk) as [Hn|Hx]; [|exact Hx].
+    exfalso. apply Hn. reflexivity.
+  - intros (t & ps & Hin & Hr & Hp).
+    destruct (C07_fallback_states _ _ _ _ _ _ H t ps p Hin Hp) as (r' & offs & Hr' & _ & Hg).
+    rewrite Hr in Hr'. inversion Hr'. subst r'. rewrite Hg. discriminate.
+Qed.
+
+(* ================================================================================== *)
+(* 10. subscriptions()                                                                *)
+(* ================================================================================== *)
+
+Definition flat_tps (m : list (bytes * list Z)) : list (bytes * Z) :=
+  flat_map (fun e => map (fun p => (fst e, p)) (snd e)) m.
+
+Lemma res_push_flat m t p : Permutation (flat_tps (res_push m t [p])) ((t, p) :: flat_tps m).
+Proof.
+  induction m as [|[t' vs'] m IH]; cbn [res_push].
+  - apply Permutation_refl.
+  - destruct (bytes_eqb t' t) eqn:E.
+    + apply bytes_eqb_eq in E. subst t'. unfold flat_tps. cbn [flat_map fst snd].
+      rewrite map_app. cbn [map]. rewrite <- app_assoc. cbn [app].
+      symmetry. apply Permutation_middle.
+    + unfold flat_tps. cbn [flat_map fst snd]. fold (flat_tps (res_push m t [p])). fold (flat_tps m).
+      eapply Permutation_trans; [apply Permutation_app_head; exact IH|].
+      symmetry. apply Permutation_middle.
+Qed.
+
+Lemma res_push_keys {V} (m : list (bytes * list V)) t vs t' :
+  In t' (map fst (res_push m t vs)) <-> t' = t \/ In t' (map fst m).
+Proof.
+  induction m as [|[k0 v0] m IH]; cbn [res_push map fst In].
+  - intuition.
+  - destruct (bytes_eqb k0 t) eqn:E; cbn [map fst In].
+    + apply bytes_eqb_eq in E. subst k0. intuition.
+    + rewrite IH. intuition.
+Qed.
+Lemma res_push_nodup {V} (m : list (bytes * list V)) t vs :
+  NoDup (map fst m) -> NoDup (map fst (res_push m t vs)).
+Proof.
+  induction m as [|[k0 v0] m IH]; intros H; cbn [res_push map fst].
+  - constructor; [intros []|constructor].
+  - cbn [map fst] in H. inversion H as [|? ? Hn Hd]; subst.
+    destruct (bytes_eqb k0 t) eqn:E; cbn [map fst]; [exact H|].
+    constructor; [|apply IH; exact Hd]. intros Hin. apply res_push_keys in Hin.
+    destruct Hin as [Hk|Hin]; [apply bytes_eqb_neq in E; congruence|contradiction].
+Qed.
+
+Definition fetch_key_name (k : consumer) (e : tpkey * (Z * Z)) : bytes * Z :=
+  (topic_name k (fst (fst e)), snd (fst e)).
+
+Lemma subscriptions_gen k : forall l acc,
+  NoDup (map fst acc) ->
+  let step := (fun acc '((r, p), _) => res_push acc (topic_name k r) [p]) in
+  Permutation (flat_tps (fold_left step l acc)) (flat_tps acc ++ map (fetch_key_name k) l)
+  /\ NoDup (map fst (fold_left step l acc)).
+Proof.
+  induction l as [|[[r p] v] l IH]; intros acc Hnd step; cbn [fold_left map].
+  - rewrite app_nil_r. split; [apply Permutation_refl|exact Hnd].
+  - subst step. destruct (IH (res_push acc (topic_name k r) [p]) (res_push_nodup _ _ _ Hnd)) as [H1 H2].
+    split; [|exact H2]. eapply Permutation_trans; [exact H1|].
+    eapply Permutation_trans; [apply Permutation_app_tail; apply res_push_flat|].
+    unfold fetch_key_name at 2. cbn [fst snd app]. apply Permutation_middle.
+Qed.
+
+(* subscriptions() lists exactly the keys of the fetch states - one (topic, partition) pair per
+   entry, as a multiset - and names every topic once (grouped by topic) *)
+Theorem C19_subscriptions : forall k,
+  Permutation (flat_tps (subscriptions k)) (map (fetch_key_name k) (k_fetch k))
+  /\ NoDup (map fst (subscriptions k)).
+Proof.
+  intros k. destruct (subscriptions_gen k (k_fetch k) [] (NoDup_nil _)) as [H1 H2].
+  split; [exact H1|exact H2].
+Qed.
+
+Example C19_subscriptions_ex :
+  subscriptions ex_consumer = [(tag "a", [0; 1]); (tag "b", [0])]
+  /\ map (fetch_key_name ex_consumer) (k_fetch ex_consumer) = [(tag "a", 0); (tag "a", 1); (tag "b", 0)].
+Proof. vm_compute. split; reflexivity. Qed.
+
+Print Assumptions bytes_cmp_total.
+Print Assumptions C19_from_map_sorted.
+Print Assumptions C19_lookup.
+Print Assumptions C19_lookup_some.
+Print Assumptions C19_lookup_none.
+Print Assumptions C19_lookup_found.
+Print Assumptions C19_lookup_unique.
+Print Assumptions C19_determine.
+Print Assumptions C19_subscriptions_of.
+Print Assumptions C19_builder_override.
+Print Assumptions C19_builder_untouched.
+Print Assumptions C19_builder_keys_distinct.
+Print Assumptions C19_no_topics.
+Print Assumptions C19_foreign_seek.
+Print Assumptions C19_foreign_consume.
+Print Assumptions C19_seek_assigned.
+Print Assumptions C19_seek_ok_iff.
+Print Assumptions C19_consume_assigned.
+Print Assumptions C19_consume_ok_iff.
+Print Assumptions C19_consume_others.
+Print Assumptions C19_seek_keeps_marks.
+Print Assumptions C19_fetch_states_exact.
+Print Assumptions C19_fallback_states_exact.
+Print Assumptions C19_subscriptions.
